@@ -36,6 +36,11 @@ impl InputVariant {
 
     /// Whether this variant is one `FromMeta` has no parser for: a tuple variant that does
     /// not have exactly one field (unless it is skipped, in which case it is never parsed).
+    /// Whether `#[darling(skip)]` removes this variant from parsing.
+    pub(crate) fn is_skipped(&self) -> bool {
+        self.skip.unwrap_or_default()
+    }
+
     pub(crate) fn is_unsupported_tuple(&self) -> bool {
         self.data.is_tuple() && self.data.len() != 1 && !self.skip.unwrap_or_default()
     }
